@@ -166,3 +166,20 @@ ENGINES.append({"name": "gcv-canon", "path": "/verif/gcv/canon.py", "serves_prop
                 "kind_free_text": "normalisation of the fact file to the pinned vocabulary: impl blocks in other modules, moved items, and renamed private items found by their role in the call graph relative to the public API (never by spelling); identity on the unchanged tree"})
 NOTES += (" Eight checks share one bounded heap exploration per analysed tree (cached next to the fact files; recomputed whenever the "
           "tree, the tier or the engine's sources change).")
+
+# ---- third session
+CLAIMED["C01"]["technique"] += ("; needs-trace establishers identified by effect (setter or constructor parameter); unwinding exits of the "
+                                "root-mutating entry points; H1 also under injected panics (root written through Arena::mutate_root with a "
+                                "callback that may panic after the store)")
+CLAIMED["C05"]["technique"] += "; store-after-upgrade rows (strong barrier tables / adoption paths with a weakly marked child)"
+CLAIMED["C06"]["technique"] += "; unwinding exits of the root-mutating entry points"
+CLAIMED["C09"]["technique"] += ("; propositional equivalence of every Metrics predicate the collector asks with allocation_debt() > 0 "
+                                "(enumeration of orderings of the compared terms)")
+CLAIMED["C16"]["technique"] += "; fallible accessors (a trace call is not skipped on a failed borrow)"
+CLAIMED["C17"]["technique"] += ("; effect-based flag-encoding analysis (every writer of the tagged vtable word interpreted on all tag states: "
+                                "one attribute, others and the vtable address intact)")
+CLAIMED["C19"]["technique"] += "; inline-const guards interpreted in place"
+for e in ENGINES:
+    if e["name"] == "gcv-typestate":
+        e["kind_free_text"] = e.get("kind_free_text", "") + (" Raw accesses to the object header are interpreted over the concrete tag "
+                                                               "bits with the code read off the tree's own getters (header word codec).")
